@@ -139,7 +139,7 @@ func runC14(t *testing.T, rng *rand.Rand, rec *sim.Rec, tier string, caseNo int)
 		}
 	}()
 	relay := conn.LocalAddr().(*net.UDPAddr)
-	pattern := pick(rng, []string{"continuous", "bursts", "idle-7m", "idle-40m", "idle-3h", "mixed"})
+	pattern := pick(rng, []string{"continuous", "bursts", "idle-7m", "idle-40m", "idle-3h", "mixed", "rollover", "rollover"})
 	start := time.Now()
 	probes := 0
 	probe := func() bool {
@@ -213,6 +213,13 @@ func runC14(t *testing.T, rng *rand.Rand, rec *sim.Rec, tier string, caseNo int)
 			gap = pick(rng, []time.Duration{40 * time.Minute, 30 * time.Second})
 		case "idle-3h":
 			gap = pick(rng, []time.Duration{3*time.Hour - time.Minute, 20 * time.Second})
+		case "rollover":
+			// dense probing while the hour-old nonce is being replaced, sparse otherwise
+			if m := time.Since(start) % time.Hour; m > 58*time.Minute || m < 9*time.Minute {
+				gap = time.Duration(5+rng.Intn(10)) * time.Second
+			} else {
+				gap = time.Duration(5+rng.Intn(7)) * time.Minute
+			}
 		default:
 			gap = pick(rng, []time.Duration{time.Second, 45 * time.Second, 7 * time.Minute, 61 * time.Minute})
 		}
